@@ -41,3 +41,8 @@ package config
 //@   loop 1 (range section)
 //@     invariant rawFormN == old(rawFormN) && displayFormN == old(displayFormN) + cnt1
 //@   modifies *
+
+// durations are written through the Dst pointers only (assumed here; the parsing itself is time.ParseDuration)
+//@ func ParseDurations
+//@   opts trusted
+//@   modifies heap(time.Duration)
